@@ -62,7 +62,7 @@ def tset(xs):
 
 def gen_cfg(ctx, name, **kw):
     d = dict(mode=EDGE, contents="GenContentsSmall", rids=tset([1, 2]), maxargs=tset([0, 1, 2]),
-             policies=tset(["oddid", "oldserial", "none"]), idargs=tset([1, 2, 3, 4, 9]), serialargs=tset([1, 2, 7]),
+             policies=tset(["oddid", "oldserial", "none"]), idargs=tset([1, 2, 3, 9]), serialargs=tset([1, 2, 7]),
              depth=7, ops=tset(ALL_OPS), initkinds=tset(["fresh"]), initcontents="GenInitOne", maxcommits=3,
              closehows=tset(["rollback"]), endhows=tset(["commit", "rollback"]), idoffsets="GenNoOffsets", forms=tset(["rdata"]))
     d.update(kw)
@@ -220,8 +220,17 @@ def run(ctx):
         ctx.extra["nontrivial_scripts"] = sum(1 for s in scripts if nontrivial(s))
         ctx.distinct = set(j[-1] for j in jobs if j[0] == "random" or nontrivial(j[0]))
     # ---- run the real code
-    traces = ctx.pmap(c11_versioned.run_job, jobs) if len(jobs) != 1 else [c11_versioned.run_job(jobs[0])]
-    ptraces = ctx.pmap(c11_versioned.run_job, probe_jobs, chunk=1) if len(probe_jobs) > 1 else [c11_versioned.run_job(j) for j in probe_jobs]
+    if len(jobs) + len(probe_jobs) <= 2:
+        traces = [c11_versioned.run_job(j) for j in jobs]
+        ptraces = [c11_versioned.run_job(j) for j in probe_jobs]
+    else:
+        # one pool: the (few, long) immutability examinations start first, one per task, and
+        # run alongside the (many, short) histories
+        import multiprocessing as mp
+        with mp.get_context("fork").Pool(16) as pool:
+            pending = pool.map_async(c11_versioned.run_job, probe_jobs, chunksize=1)
+            traces = pool.map(c11_versioned.run_job, jobs, chunksize=max(1, len(jobs) // 256)) if jobs else []
+            ptraces = pending.get()
     for tr in ptraces:
         tr["part"] = "probe"
     ctx.log("replayed %d histories, %d immutability examinations" % (len(traces), len(ptraces)))
